@@ -374,8 +374,19 @@ func (w *world) main() {
 			if w.inPush > 0 {
 				simrt.Probe("cancel_while_push_in_flight")
 			}
+			w.crashPointProbes()
 			simrt.Fault("ctx.cancel_midrun")
+			blocked := w.inPush
 			cancel()
+			// released by the cancellation itself, not by waiting out the push
+			// timeout: at the next quiescence (no timer advanced) nobody is
+			// inside PushTask any more
+			simrt.Quiesce()
+			if w.inPush > 0 {
+				w.violate("C07", "producer-not-released", fmt.Sprintf("%d producer(s) still blocked in PushTask after the context was cancelled and everything else came to rest (only the push timeout can release them now)", w.inPush), "producer-not-released")
+			} else if blocked > 0 {
+				simrt.Probe("blocked_producers_released_by_cancel")
+			}
 		})
 	}
 	simrt.Settle()
@@ -492,6 +503,34 @@ func (w *world) main() {
 		}
 	}
 	w.checkLastPanic()
+}
+
+// crashPointProbes records in which protocol states the cancellation lands
+// (reach measurement only; no oracle depends on it).
+func (w *world) crashPointProbes() {
+	for _, t := range simrt.Tasks() {
+		if t.Done {
+			continue
+		}
+		lane := strings.HasPrefix(t.Site, "tasklane/")
+		switch {
+		case lane && t.Sends > 0 && !t.Enabled:
+			simrt.Probe("cancel_with_queue_goroutine_blocked_in_handover")
+		case lane && t.Sends > 0:
+			simrt.Probe("cancel_with_queue_goroutine_about_to_hand_over")
+		case lane && t.Recvs >= 3 && t.Sends == 0 && !t.Enabled:
+			simrt.Probe("cancel_with_worker_idle")
+		case lane && t.Recvs == 2 && t.Sends == 0 && !t.Enabled:
+			simrt.Probe("cancel_with_queue_goroutine_idle")
+		case strings.HasPrefix(t.Name, "producer") && t.Sends > 0 && !t.Enabled:
+			simrt.Probe("cancel_with_producer_blocked_on_full_lane")
+		case strings.HasPrefix(t.Name, "producer") && t.Sends > 0:
+			simrt.Probe("cancel_with_producer_about_to_enqueue")
+		}
+	}
+	if w.running > 0 {
+		simrt.Probe("cancel_with_worker_mid_task")
+	}
 }
 
 func (w *world) startWaiter() {
